@@ -27,6 +27,8 @@ M = 4            # ring level of the main batch (angles k*pi/4)
 M_FINE = 5       # thorough tier: decomposed gates on the finer lattice k*pi/8
 N = 1 << M
 PID = "C67"
+# sizes per tier: random export circuits; simulated import programs (3 qubits x 6 statements, 2 qubits x 9 statements)
+SIZES = {"quick": {"export": 280, "sim": 110, "sim2": 0}, "thorough": {"export": 4000, "sim": 1500, "sim2": 600}}
 
 NATIVE0 = ["PauliX", "PauliY", "PauliZ", "Hadamard", "S", "T", "Identity", "CNOT", "CZ", "SWAP", "Toffoli", "CSWAP"]
 NATIVE_ADJ = ["S", "T"]
@@ -92,7 +94,7 @@ def gen_export(tier, seed):
     for circ in single_gate_cases():
         cases.append({"n": 3, "circ": [("g", r) for r in circ], "labels": [0, 1, 2], "wires": None, "measure_all": True, "rotations": False,
                       "precision": None, "meas": [("probs", [1, 2, 3])], "kind": "single", "via": "tape", "M": M})
-    nrand = 280 if tier == "quick" else 6000
+    nrand = SIZES[tier]["export"]
     for i in range(nrand):
         kind = rng.choice(["native", "native", "native", "decomp", "mcm"])
         m = M_FINE if (kind == "decomp" and tier != "quick" and rng.random() < 0.5) else M
@@ -232,10 +234,11 @@ def sig_export(c):
 
 
 def sig_stmt(i):
+    """class of a statement for violation keys: name + whether a (neg)ctrl modifier is present"""
     if i["k"] != "q":
         return {"m": "measure", "r": "reset"}[i["k"]]
     g = i["g"]
-    return g["q"] + ":" + "+".join(md["t"] for md in g["mods"]) + (":if" if i["cw"] else "")
+    return g["q"] + (":ctrl" if any(md["t"] == "ctrl" for md in g["mods"]) else ":plain")
 
 
 def run_generator(tier, seed):
@@ -245,11 +248,11 @@ def run_generator(tier, seed):
     a1 = "{1, 3, 6, 10, 13, 15}"
     if tier == "quick":
         runs = [("ex1", dict(NQ=3, Ang1="{3}", Ang2="{1, 3, 6, 13}", NTup=2, MaxLen=1, MaxAnc=0, Kinds='{"gate"}', Depth2="FALSE"), None),
-                ("sim", dict(NQ=3, Ang1=a1, Ang2="{1, 3, 6, 13}", NTup=4, MaxLen=6, MaxAnc=2, Kinds=kinds_all, Depth2="TRUE"), 110)]
+                ("sim", dict(NQ=3, Ang1=a1, Ang2="{1, 3, 6, 13}", NTup=4, MaxLen=6, MaxAnc=2, Kinds=kinds_all, Depth2="TRUE"), SIZES[tier]["sim"])]
     else:
         runs = [("ex1", dict(NQ=3, Ang1="{3, 10}", Ang2="{1, 3, 6, 13}", NTup=3, MaxLen=1, MaxAnc=0, Kinds='{"gate"}', Depth2="TRUE"), None),
-                ("sim", dict(NQ=3, Ang1=a1, Ang2="{1, 3, 6, 13}", NTup=4, MaxLen=6, MaxAnc=2, Kinds=kinds_all, Depth2="TRUE"), 2500),
-                ("sim2", dict(NQ=2, Ang1=a1, Ang2="{1, 3, 6, 13}", NTup=4, MaxLen=9, MaxAnc=3, Kinds=kinds_all, Depth2="TRUE"), 1200)]
+                ("sim", dict(NQ=3, Ang1=a1, Ang2="{1, 3, 6, 13}", NTup=4, MaxLen=6, MaxAnc=2, Kinds=kinds_all, Depth2="TRUE"), SIZES[tier]["sim"]),
+                ("sim2", dict(NQ=2, Ang1=a1, Ang2="{1, 3, 6, 13}", NTup=4, MaxLen=9, MaxAnc=3, Kinds=kinds_all, Depth2="TRUE"), SIZES[tier]["sim2"])]
     for name, consts, nsim in runs:
         consts = dict(consts, M=3)      # the grammar does not evaluate matrices: any ring level
         kw = dict(simulate=f"num={nsim}", depth=12 * consts["MaxLen"] + 12, seed=seed + 11, workers=1) if nsim else {}
@@ -422,7 +425,7 @@ def run(tier, seed):
     bad_single = set()
     for ti, m in enumerate(meta):
         if m[0] == "import" and verdict[ti] != "ok" and len(m[1]["b"]) == 1:
-            bad_single.add(sig_stmt(m[1]["b"][0]).replace(":if", ""))
+            bad_single.add(sig_stmt(m[1]["b"][0]))
     n_ok = {"export": 0, "import": 0}
     for ti, m in enumerate(meta):
         if m[0] == "NEG":
@@ -448,7 +451,7 @@ def run(tier, seed):
                                   replay={"case": c, "program": text, "tlc_case": cases[ti]}))
         else:
             p, text = m[1], m[2]
-            sg = [sig_stmt(i).replace(":if", "") for i in p["b"]]
+            sg = [sig_stmt(i) for i in p["b"]]
             hit = [s for s in sg if s in bad_single]
             key = f"import:{v}:{hit[0] if hit else (sg[0] if len(sg) == 1 else 'program')}"
             viol.append(Violation(key=key, detail=f"from_qasm3 (wire_map={m[3]}) imported\n{text}as {m[4]}: TLC verdict {v}",
